@@ -98,14 +98,15 @@ def parallel_probe(scratch, items, jobs=12):
 
 def own_check_mismatch(impl_outcome, model_entry):
     """the real `DB::check` verdict on an image that opened vs the Lean model of that check (`implCheck`)
-    evaluated on the same bytes; returns a description of the disagreement or None"""
+    evaluated on the same bytes.  Only one direction is demanded (it is what the theorem needs, and the Lean
+    decoder also bounds-checks bytes the real check never reads): model accepts ⇒ real accepts.  Returns a
+    description of the disagreement or None."""
     m = re.match(r"ok;dump=.*;check=(\S+)$", impl_outcome or "")
     mm = re.search(r"implcheck=(ok|err)", (model_entry or ("", ""))[1] or "")
     if not m or not mm:
         return None
-    real_ok = m.group(1) == "ok"
-    if real_ok != (mm.group(1) == "ok"):
-        return "the database's own check says %s, its Lean model says %s" % (m.group(1)[:60], mm.group(1))
+    if mm.group(1) == "ok" and m.group(1) != "ok":
+        return "the database's own check says %s, its Lean model accepts" % m.group(1)[:60]
     return None
 
 
